@@ -159,6 +159,8 @@ class SocketWrapper:
                 break
             try:
                 chunk_length = int(length_bytes.strip(), 16)
+                if chunk_length < 0:  # "-ff": not a chunk size either
+                    raise ValueError("negative chunk size")
             except ValueError:
                 # residual bytes at beginning of stream
                 break
